@@ -27,7 +27,8 @@ TRUSTED_BUDGET_S = float(os.environ.get("PYVC_TRUSTED_S", "12"))
 
 ASSUMPTIONS = {
     "A1": "sequential execution; no threads, signals or finalisers",
-    "A2": "no resource exhaustion (MemoryError / RecursionError do not occur)",
+    "A2": "no resource exhaustion (MemoryError); RecursionError is modelled only for the recursive traversals / searches (it may end "
+          "any of their calls abnormally, contracts/traversal.py may_exhaust_stack) and assumed absent elsewhere (recursion depth <= 3)",
     "A3": "int is unbounded; float arithmetic treated as real arithmetic",
     "A4": "==, in, list.remove, set/dict membership on edgegraph objects are identity (no repo class defines __eq__/__hash__: "
           "checked syntactically each run; assumed for user subclasses); truthiness of an instance is unconstrained",
@@ -39,7 +40,13 @@ ASSUMPTIONS = {
     "A9": "dict preserves insertion order; set iteration yields each element once in arbitrary order; uuid4().int is an "
           "arbitrary positive integer; list/tuple/dict built-ins behave as their Lean List counterparts (append=snoc, "
           "remove=erase, in=membership)",
-    "A10": "third-party code (pyvis, dill/pickle, re, subprocess) is not verified",
+    "A10": "third-party code (dill/pickle, re, subprocess) is not verified and assumed not to write to edgegraph objects; "
+           "pyvis.network.Network is used through an ASSUMED contract (pyvc/ops.py call_net_method: add_node appends unless the id exists; "
+           "add_edge asserts both ids are nodes, skips an already joined pair when `directed` is false, else appends (from, to, arrow)), "
+           "compared with the real class by the explorer operation pyvis_net; for C15 its methods are assumed not to raise otherwise",
+    "LISTFACTS": "facts marked [L] in the contracts (an exists-/first-match fold over pre++[x]++suf is decided by pre++[x] once it fired; a "
+                 "duplicate-free list has each element at one index; i in iota(k+1) <=> i in iota(k) or i = k) are assumed list facts, "
+                 "stated in /verif/lean where proved",
     "A11": "the rewrite rules of pyvc/terms.py are instances of the lemmas in /verif/lean/ListLemmas.lean (checked by Lean "
            "4.33 + Mathlib when the thorough tier / setup runs)",
     "ALLOC": "a freshly allocated object is distinct from and unreferenced by every existing object",
